@@ -80,7 +80,7 @@ func register(r *mc.Registry) {
 		"unbounded sources: a demand is run only if the first 24 elements determine its answers for every continuation (otherwise the reference itself needs the whole source: excluded, counted in the census); it must then be answered with at most 36 pulls",
 		"non-termination is decided by a budget of 4000 (lists: 6000) callback invocations/pulls/probes per run on inputs of length <= 5",
 		"list demand = the cells whose emptiness/head/tail the consumer asked for; a memoised list evaluates each cell at most once = generator(i) of list.Generate/GenerateFrom is invoked at most once per index over the demand and a complete re-traversal (and an iterator-backed list yields the same values again)",
-		"multi-operand functions (scenario multi-operand): every operand is its own instrumented source, all combinations of operand lengths 0..3, optionally one operand unbounded; values against the eager computation (checked against package seq where it has the function), pulls per operand <= need+2 with the other operands fixed; iterator.Map2/Ap give each element of the first operand the SAME second-operand iterator, so their agreement with seq is recorded in the census as an observation only (applicative semantics are C01's subject), list.Map2/Ap are compared strictly",
+		"multi-operand functions (scenario multi-operand): every operand is its own instrumented source, all combinations of operand lengths 0..3, optionally one operand unbounded; values against the eager computation (checked against package seq where it has the function), pulls per operand <= need+2 with the other operands fixed; iterator.Map2/Ap give each element of the first operand the SAME second-operand iterator, so their agreement with seq is recorded in the census as an observation only (applicative semantics are C01's subject), list.Map2/Ap are compared strictly and go through every demand, with each operand position in turn unbounded and never slice-backed (list.Generate, list.Map over it, list.Recurrence1); a demand that would see the end of an output computed on a truncated unbounded operand is run only where that end is real (zips; Map2/Ap with a finite first operand)",
 		"besides the HasNext/Next demands every finite Iterator pipeline is drained once with Next alone (Next x len(out), then HasNext): legal because every iterator of the library guards its own next; key suffix /next-without-hasnext",
 		"on finite sources the direct (unwrapped) multi-stage pipeline is run for the largest demand only: the calls of every smaller demand are a prefix of its calls",
 		"ties (scenario ties/ops): elements item{Key,Tag} with Ord/Eq/Hashable/key functions that look at Key only; the Iterator and List functions must give exactly what the eager package-seq counterpart gives on the same elements (which of several equivalent elements Min/Max/ToSet/ToMap keep, the order Sort leaves them in, group order, which duplicate key wins); the oracle there is the library's own seq function, not a harness loop",
